@@ -7,6 +7,7 @@ import Driver.DimOps
 import Driver.FloatOps
 import Driver.AdaptiveOps
 import Driver.BoundedOps
+import Driver.OomOps
 /- vdriver: reads one operation per line, prints the model's canonical result line. -/
 open Driver
 
@@ -33,7 +34,9 @@ def runLine (line : String) : String :=
                   | some r => r
                   | none => match boundedOp toks with
                     | some r => r
-                    | none => "bad-op"
+                    | none => match oomOp toks with
+                      | some r => r
+                      | none => "bad-op"
 
 partial def loop (h : IO.FS.Stream) (out : IO.FS.Stream) : IO Unit := do
   let line ← h.getLine
